@@ -55,7 +55,10 @@ Definition dispatch (kind : string) (args : list string) : string :=
             let '(s, rs) := run c (init c) h in
             let tr := trace c (init c) h in
             let obs := show_trace c tr s in
-            let fs := map (c12_fails c) tr in
+            let fs := match parse_raw args with
+                      | Some (raw, _) => zip_fails (map (c12_fails c) tr) (map (c12_dns_fails raw c) tr)
+                      | None => map (c12_fails c) tr
+                      end in
             if all_nil fs then out3 obs obs "-"
             else out3 obs ("viol " ++ show_fails fs) (hist_key (c12_class c) (combine tr fs) None)
         | None => BADARGS
